@@ -82,7 +82,11 @@ void h_hsort_body(void) {
     uint64_t a0[6]; size_t i; int c0 = 0, c1 = 0;
     __CPROVER_assume(n <= 6);
     memcpy(a0, a, sizeof(a));
-    secp256k1_hsort(a, n, sizeof(a[0]), cmp_u64, NULL);
+    /* one call per concrete count: keeps the heap indices concrete for the symbolic executor */
+    switch (n) {
+#define RUN(N) case N: secp256k1_hsort(a, N, sizeof(a[0]), cmp_u64, NULL); break;
+    RUN(0) RUN(1) RUN(2) RUN(3) RUN(4) RUN(5) RUN(6)
+    }
     if (gi < 5 && gi + 1 < n) __CPROVER_assert(a[gi] <= a[gi + 1], "C04 hsort_body: output is sorted (every adjacent pair in order)");
     for (i = 0; i < 6; i++) { if (i < n && a0[i] == gv) c0++; if (i < n && a[i] == gv) c1++; }
     __CPROVER_assert(c0 == c1, "C04 hsort_body: output is a permutation of the input (multiplicity of every value preserved)");
